@@ -53,7 +53,7 @@ def table_facts(m, t):
     for c in t['columns']:
         ty = c['type']
         if ty[0] == 'enum':
-            tytxt = '.'.join(f'"{p}"' for p in qname(ty[1], ty[2]))
+            tytxt = '.'.join('"' + p.replace('"', '""') + '"' for p in qname(ty[1], ty[2]))
         else:
             tytxt = ty[1]
         cols.append({'name': c['name'], 'type': tytxt, 'pk': bool(c['pk'] and not composite), 'autoinc': c['autoinc'],
@@ -184,7 +184,7 @@ def _find_col(m, s, t, c):
 
 def _type_text(ty):
     if ty[0] == 'enum':
-        return '.'.join(f'"{p}"' for p in qname(ty[1], ty[2]))
+        return '.'.join('"' + p.replace('"', '""') + '"' for p in qname(ty[1], ty[2]))
     return ty[1]
 
 
